@@ -19,10 +19,28 @@ Core Lean only (the driver links this file).
 namespace Bb.Nf
 open Bb
 
+/-- one input bit, possibly negated: bit `j` of the raw value (`arg = false`) / of the written value (`arg = true`) -/
+structure Lit where
+  arg : Bool
+  j : Nat
+  neg : Bool
+  deriving DecidableEq, Repr, Inhabited
+
+def Lit.eval (raw fv : Nat) (l : Lit) : Bool := (if l.arg then fv else raw).testBit l.j != l.neg
+
+def Lit.lt (a b : Lit) : Bool :=
+  (!a.arg && b.arg) || (a.arg == b.arg && (a.j < b.j || (a.j == b.j && (!a.neg && b.neg))))
+
+/-- insertion into a sorted list of literals without duplicates (the canonical form of a disjunction) -/
+def insertLit (l : Lit) : List Lit → List Lit
+  | [] => [l]
+  | x :: xs => if l = x then x :: xs else if Lit.lt l x then l :: x :: xs else x :: insertLit l xs
+
 /-- where one bit of a value comes from -/
 inductive Src where
   | c (b : Bool)                              -- a constant
   | inp (arg : Bool) (j : Nat) (neg : Bool)   -- bit `j` of the raw value (`arg = false`) / of the written value (`arg = true`), negated if `neg`
+  | ors (ls : List Lit)                       -- the disjunction of two or more input bits (writes through a list that names a bit twice)
   | top                                       -- poison: not expressible (never part of a result)
   deriving DecidableEq, Repr, Inhabited
 
@@ -30,11 +48,13 @@ def Src.eval (raw fv : Nat) : Src → Bool
   | .c b => b
   | .inp false j n => raw.testBit j != n
   | .inp true j n => fv.testBit j != n
+  | .ors ls => ls.any (Lit.eval raw fv)
   | .top => false
 
 def Src.not : Src → Src
   | .c b => .c (!b)
   | .inp a j n => .inp a j (!n)
+  | .ors _ => .top
   | .top => .top
 
 def Src.and (x y : Src) : Src :=
@@ -45,6 +65,8 @@ def Src.and (x y : Src) : Src :=
   | _, .c false => .c false
   | .c true, s => s
   | s, .c true => s
+  | .ors a, b => if Src.ors a = b then .ors a else .top
+  | a, .ors b => if a = Src.ors b then .ors b else .top
   | a, b => if a = b then a else if a = b.not then .c false else .top
 
 def Src.or (x y : Src) : Src :=
@@ -55,7 +77,13 @@ def Src.or (x y : Src) : Src :=
   | _, .c true => .c true
   | .c false, s => s
   | s, .c false => s
-  | a, b => if a = b then a else if a = b.not then .c true else .top
+  | .ors a, .ors b => .ors (a.foldr insertLit b)
+  | .ors a, .inp g j n => .ors (insertLit ⟨g, j, n⟩ a)
+  | .inp g j n, .ors b => .ors (insertLit ⟨g, j, n⟩ b)
+  | .inp g j n, .inp g' j' n' =>
+      if Src.inp g j n = .inp g' j' n' then .inp g j n
+      else if g = g' ∧ j = j' then .c true
+      else .ors (insertLit ⟨g, j, n⟩ [⟨g', j', n'⟩])
 
 /-- `if c { x } else { y }`, bit by bit -/
 def Src.mux (c x y : Src) : Src :=
@@ -232,7 +260,7 @@ def nf (ctx : Ctx) (σ : SEnv) : Expr → Option SRes
       match nf ctx σ a with
       | some .panic => some .panic
       | some (.ok (.int t l)) => if t.signed then none else mkInt t (l.map Src.not)
-      | some (.ok (.bool s)) => if s = .top then none else some (.ok (.bool s.not))
+      | some (.ok (.bool s)) => if s.not = .top then none else some (.ok (.bool s.not))
       | _ => none
   | .cast a ty =>
       match nf ctx σ a with
